@@ -28,7 +28,7 @@ SPEC = dict(
           "#groups omitted, #groups present) of the grammar cases"),
     assumptions=["R1 (bvmon/ref.py) is the independent renderer/recogniser written from the README part table",
                  "states are reachable: what re-reading the rendered text yields (hidden TAG/NUM never leak)"],
-    required=["calendar_renders", "grammar_renders", "bumped_state_renders", "chain_steps", "groups_omitted_cases",
+    required=["yearless_week_zero_roundtrips", "calendar_renders", "grammar_renders", "bumped_state_renders", "chain_steps", "groups_omitted_cases",
               "groups_present_cases"],
     anchors=[("v2patterns", "_compile_pattern_re"), ("v2patterns", "_replace_pattern_parts"),
              ("v2version", "parse_version_info"), ("v2version", "_parse_segtree"), ("v2version", "_format_segment"),
@@ -45,7 +45,15 @@ PINNED = [
 ]
 
 
+# week number 0 in a pattern that has no year part (the first days of January, until the first Monday / Sunday)
+YEARLESS_WEEK0 = [("2021-01-02", "vMAJOR.0W.INC0"), ("2021-01-01", "WW.BUILD"), ("2022-01-01", "vMAJOR.UU[.PATCH]"),
+                  ("2021-01-02", "MAJOR.0U.INC0"), ("2027-01-03", "vMAJOR.WW.MINOR")]
+
+
 def cases(ctx):
+    for k, (d, p) in enumerate(YEARLESS_WEEK0):
+        if ctx.mine(k):
+            yield {"kind": "date1", "date": d, "pattern": p, "week0": True}
     # contiguous year range per shard
     y0, y1 = 1000, 9999
     span = (y1 - y0 + 1 + ctx.nshards - 1) // ctx.nshards
@@ -217,6 +225,8 @@ def run_case(ctx, case):
         st = ref.default_state()
         st.update(ref.cal_from_date(dt.date.fromisoformat(case["date"])))
         roundtrip(ctx, mods, p, ast, names, st, case)
+        if case.get("week0"):
+            ctx.count("yearless_week_zero_roundtrips")
         ctx.evaluated(("pinned", p, case["date"]))
         return
     if kind == "state":
